@@ -36,6 +36,12 @@ func (m *Mutex) TryLock() bool {
 
 func (m *Mutex) Unlock() {
 	vsched.Point(vsched.OpUnlock, unsafe.Pointer(m))
+	if !m.locked.Load() && vsched.TearingDown() {
+		// a thread parked in Cond.Wait (lock released) is being unwound after the execution ended: the deferred
+		// Unlock of the waiter's caller must not take the process down ("unlock of unlocked mutex" is fatal);
+		// the execution's verdict (threads left blocked) has already been recorded
+		return
+	}
 	m.locked.Store(false)
 	m.real.Unlock()
 }
